@@ -949,3 +949,68 @@ pub fn main() {
         },
     );
 }
+
+
+/// bytes -> case (coverage-guided fuzzing front end): byte 0 = element kind, then one operation per 6 bytes
+pub fn decode(data: &[u8]) -> Case {
+    let kind = match data.first().copied().unwrap_or(0) % 6 {
+        0..=3 => Kind::Tracked,
+        4 => Kind::Zst,
+        _ => Kind::U32,
+    };
+    let mut ops = vec![];
+    for ch in data.get(1..).unwrap_or(&[]).chunks(6) {
+        if ops.len() >= 64 {
+            break;
+        }
+        let g = |i: usize| ch.get(i).copied().unwrap_or(0);
+        let s1 = u16::from_le_bytes([g(1), g(2)]);
+        let s2 = u16::from_le_bytes([g(3), g(4)]);
+        let b = g(5);
+        ops.push(match g(0) % 42 {
+            0 => Op::New(b % 12, (s1 % 13) as u8),
+            1 => Op::IntoIter(s1),
+            2 => Op::Map(s1, b % 3),
+            3 => Op::Zip(s1, s2, b % 9),
+            4 => Op::Fold(s1, b % 3),
+            5 => Op::Append(s1),
+            6 => Op::Prepend(s1),
+            7 => Op::PopBack(s1),
+            8 => Op::PopFront(s1),
+            9 => Op::Split(s1, b),
+            10 => Op::Concat(s1, s2),
+            11 => Op::Remove(s1, b),
+            12 => Op::SwapRemove(s1, b),
+            13 => Op::Regroup(s1, b, (s2 % 4) as u8),
+            14 => Op::NativeRt(s1, b % 2),
+            15 => Op::TupleRt(s1),
+            16 => Op::ToVec(s1),
+            17 => Op::ToBoxSlice(s1),
+            18 => Op::ToBox(s1),
+            19 => Op::CloneArr(s1),
+            20 => Op::Next(s1),
+            21 => Op::NextBack(s1),
+            22 => Op::Nth(s1, b),
+            23 => Op::NthBack(s1, b),
+            24 => Op::CloneIter(s1),
+            25 => Op::FoldRest(s1),
+            26 => Op::RFoldRest(s1),
+            27 => Op::Count(s1),
+            28 => Op::Last(s1),
+            29 => Op::CollectRest(s1, b % 2 == 1),
+            30 => Op::BoxIntoIter(s1),
+            31 => Op::BoxMap(s1),
+            32 => Op::BoxZip(s1, s2),
+            33 => Op::BoxFold(s1),
+            34 => Op::BoxIntoSlice(s1),
+            35 => Op::BoxIntoVec(s1),
+            36 => Op::Unbox(s1),
+            37 => Op::VecToArr(s1, (b % 3) as i8 - 1),
+            38 => Op::VecToBox(s1, (b % 3) as i8 - 1),
+            39 => Op::SliceToBox(s1, (b % 3) as i8 - 1),
+            40 => Op::SliceToArr(s1, (b % 3) as i8 - 1),
+            _ => Op::Drop(s1),
+        });
+    }
+    Case { kind, ops }
+}
